@@ -427,3 +427,49 @@ def _order_case(spec, model):
         if r['name'] == spec['name']:
             return {'confirmed': not r['ok'], 'observed': r['detail']}
     return {'confirmed': False, 'error': 'case not found'}
+
+
+def model_isotherm_fraction_cases():
+    """evaluating through a model isotherm in a fractional loading basis while a material unit / basis is named in the same call:
+    the bare model's value after the unit conversion (weight percent and weight fraction do not depend on the unit the material
+    mass is expressed in)"""
+    import pygaps
+    import pygaps.modelling as pgm
+    pygaps.logger.disabled = True
+    mat = pygaps.Material('pgv_c10_mat', density=2.0)
+    mm = pygaps.Adsorbate.find('nitrogen').molar_mass()
+    for name, params, calc in (('Langmuir', {'K': 3.0, 'n_m': 10.0}, 'loading'), ('Toth', {'K': 3.0, 'n_m': 10.0, 't': 0.8}, 'loading'),
+                               ('Virial', {'K': 10.0, 'A': 0.5, 'B': 0.1, 'C': 0.01}, 'pressure')):
+        m = pgm.get_isotherm_model(name, parameters=dict(params), pressure_range=(0.0, 2.0), loading_range=(0.0, 9.0), rmse=0.0)
+        bare = pgm.get_isotherm_model(name, parameters=dict(params))
+        iso = pygaps.ModelIsotherm(model=m, material=mat, adsorbate='nitrogen', temperature=77.355, pressure_mode='absolute', pressure_unit='bar',
+                                   loading_basis='molar', loading_unit='mmol', material_basis='mass', material_unit='g', temperature_unit='K')
+        ps = numpy.array([0.05, 0.2, 0.5, 1.0])
+        try:
+            n = numpy.asarray(bare.loading(ps), dtype=float).ravel()  # mmol/g
+        except Exception:
+            continue
+        cases = {
+            "percent,material_unit=kg": (dict(loading_basis='percent', material_unit='kg'), n * mm / 10),
+            "percent,material_unit=g": (dict(loading_basis='percent', material_unit='g'), n * mm / 10),
+            "fraction,material_unit=mg": (dict(loading_basis='fraction', material_unit='mg'), n * mm / 1000),
+            "percent alone": (dict(loading_basis='percent'), n * mm / 10),
+            "mass g,material_unit=kg": (dict(loading_basis='mass', loading_unit='g', material_unit='kg'), n * mm),
+        }
+        probs = []
+        for tag, (kw, want) in cases.items():
+            try:
+                got = numpy.asarray(iso.loading_at(ps, **kw), dtype=float).ravel()
+                if got.shape != want.shape or not numpy.allclose(got, want, rtol=1e-7, atol=0):
+                    probs.append(f"loading_at({tag}) = {got[:3]}, bare model converted: {want[:3]}")
+            except Exception as exc:
+                probs.append(f"loading_at({tag}): {type(exc).__name__}: {exc}"[:120])
+        yield {'name': f"model_isotherm_fractional_basis_with_material_unit|{name}", 'ok': not probs, 'detail': '; '.join(probs[:3])[:400]}
+
+
+@replayer('c10.fraction')
+def _fraction(spec, model):
+    for r in model_isotherm_fraction_cases():
+        if r['name'] == spec['name']:
+            return {'confirmed': not r['ok'], 'observed': r['detail'], 'expected': "the bare model's value after the unit conversion"}
+    return {'confirmed': False, 'error': 'case not found'}
